@@ -247,6 +247,21 @@ fn configs(thorough: bool, seed: u64) -> Vec<Cfg> {
             }
         }
     }
+    // scale extremes: the unit of time is the caller's business, so cycles of 60 ns or 10^20 s, the largest repeat
+    // counts and delays of matching scale are configurations like any other
+    let mut r = Rng::derive(seed, 304, 0);
+    let scales = [6.0e-8f32, 1.0e-12, 1.0e-30, 2.5e5, 1.0e20, 1.0e30];
+    for (i, c) in scales.iter().enumerate() {
+        let delay = match (i + seed as usize) % 3 {
+            0 => 0.0,
+            1 => c * 2.5,
+            _ => -c * 0.75,
+        };
+        let rep = *r.pick(&[Rep::None, Rep::Times(2), Rep::Times(5), Rep::Infinite]);
+        v.push(Cfg { cycle: *c, delay, rep, rev: r.chance(1, 2) });
+    }
+    v.push(Cfg { cycle: 0.25, delay: 1.0, rep: Rep::Times(u32::MAX), rev: false });
+    v.push(Cfg { cycle: 1.5e-5, delay: 0.0, rep: Rep::Times(u32::MAX - 1), rev: true });
     // random general-regime configurations
     let mut r = Rng::derive(seed, 303, 0);
     let n_rand = if thorough { 120 } else { 48 };
